@@ -155,11 +155,9 @@ func analyzeMarker(pass *codegen.Pass, markersInspect markers.Markers, typeMarke
 		return typeMarkersList[i].Identifier < typeMarkersList[j].Identifier
 	})
 
-	for _, field := range structType.Fields.List {
-		validators := make([]validator.Validator, 0)
-
+	for _, declared := range structType.Fields.List {
 		// Apply markers to the field
-		fieldMarkers := markersInspect.FieldMarkers(field)
+		fieldMarkers := markersInspect.FieldMarkers(declared)
 
 		fieldMarkersList := make([]markers.Marker, 0, len(fieldMarkers))
 		for _, marker := range fieldMarkers {
@@ -174,63 +172,85 @@ func analyzeMarker(pass *codegen.Pass, markersInspect markers.Markers, typeMarke
 		markersList = append(markersList, typeMarkersList...)
 		markersList = append(markersList, fieldMarkersList...)
 
-		input := makeValidatorInput{
-			Pass:       pass,
-			Markers:    markersList,
-			Field:      field,
-			StructName: structName,
-			ParentPath: parent,
-		}
+		// `A, B string` declares one field per name and every name is governed by the
+		// markers of the declaration. Embedded fields have no name and are left unconstrained.
+		for _, field := range splitFieldNames(declared) {
+			validators := make([]validator.Validator, 0)
 
-		// Traverse nested structs
-		structType, ok := field.Type.(*ast.StructType)
-		if !ok {
-			validators = makeValidator(input)
-			if len(validators) == 0 {
+			input := makeValidatorInput{
+				Pass:       pass,
+				Markers:    markersList,
+				Field:      field,
+				StructName: structName,
+				ParentPath: parent,
+			}
+
+			// Traverse nested structs
+			structType, ok := field.Type.(*ast.StructType)
+			if !ok {
+				validators = makeValidator(input)
+				if len(validators) == 0 {
+					continue
+				}
+
+				analyzed = append(analyzed, &AnalyzedMetadata{
+					Validators:     validators,
+					ParentVariable: parent,
+				})
+
 				continue
 			}
 
-			analyzed = append(analyzed, &AnalyzedMetadata{
-				Validators:     validators,
-				ParentVariable: parent,
-			})
+			for _, nested := range structType.Fields.List {
+				/*
+					Propagate parent markers to nested fields
 
-			continue
-		}
-
-		for _, field := range structType.Fields.List {
-			/*
-				Propagate parent markers to nested fields
-
-				//govalid:required
-				type Nested struct {
-					Name string `json:"name"`
+					//govalid:required
+					type Nested struct {
+						Name string `json:"name"`
+					}
+				*/
+				for _, nestedField := range splitFieldNames(nested) {
+					input.Field = nestedField
+					validators = append(validators, makeValidator(input)...)
 				}
-			*/
-			input.Field = field
-			validators = append(validators, makeValidator(input)...)
-		}
+			}
 
-		// Add the parent variable name to the analyzed metadata
-		var parentVariable string
-		if parent != "" {
-			parentVariable = fmt.Sprintf("%s.%s", parent, field.Names[0].Name)
-		} else {
-			parentVariable = field.Names[0].Name
-		}
+			// Add the parent variable name to the analyzed metadata
+			var parentVariable string
+			if parent != "" {
+				parentVariable = fmt.Sprintf("%s.%s", parent, field.Names[0].Name)
+			} else {
+				parentVariable = field.Names[0].Name
+			}
 
-		if len(validators) > 0 {
-			analyzed = append(analyzed, &AnalyzedMetadata{
-				Validators:     validators,
-				ParentVariable: parentVariable,
-			})
-		}
+			if len(validators) > 0 {
+				analyzed = append(analyzed, &AnalyzedMetadata{
+					Validators:     validators,
+					ParentVariable: parentVariable,
+				})
+			}
 
-		// Recursively analyze nested structs
-		analyzed = append(analyzed, analyzeMarker(pass, markersInspect, typeMarkers, structType, parentVariable, structName)...)
+			// Recursively analyze nested structs
+			analyzed = append(analyzed, analyzeMarker(pass, markersInspect, typeMarkers, structType, parentVariable, structName)...)
+		}
 	}
 
 	return analyzed
+}
+
+// splitFieldNames returns one single-name copy of the field per declared name,
+// so that every rule can keep addressing its field as Names[0].
+func splitFieldNames(field *ast.Field) []*ast.Field {
+	fields := make([]*ast.Field, 0, len(field.Names))
+
+	for _, name := range field.Names {
+		single := *field
+		single.Names = []*ast.Ident{name}
+		fields = append(fields, &single)
+	}
+
+	return fields
 }
 
 func makeValidator(input makeValidatorInput) []validator.Validator {
